@@ -29,6 +29,7 @@ import (
 
 	"github.com/containerd/nri/pkg/api"
 	"github.com/containerd/nri/pkg/log"
+	"github.com/containerd/nri/pkg/vhook"
 	"github.com/containerd/ttrpc"
 	"github.com/tetratelabs/wazero"
 	"github.com/tetratelabs/wazero/imports/wasi_snapshot_preview1"
@@ -211,7 +212,9 @@ func (r *Adaptation) RunPodSandbox(ctx context.Context, evt *StateChangeEvent) e
 // UpdatePodSandbox relays the corresponding CRI request to plugins.
 func (r *Adaptation) UpdatePodSandbox(ctx context.Context, req *UpdatePodSandboxRequest) (*UpdatePodSandboxResponse, error) {
 	r.Lock()
+	vhook.Point("adapt.locked", "UpdatePodSandbox", req)
 	defer r.Unlock()
+	defer vhook.Point("adapt.unlocking", "UpdatePodSandbox", req)
 	defer r.removeClosedPlugins()
 
 	for _, plugin := range r.plugins {
@@ -245,7 +248,9 @@ func (r *Adaptation) RemovePodSandbox(ctx context.Context, evt *StateChangeEvent
 // CreateContainer relays the corresponding CRI request to plugins.
 func (r *Adaptation) CreateContainer(ctx context.Context, req *CreateContainerRequest) (*CreateContainerResponse, error) {
 	r.Lock()
+	vhook.Point("adapt.locked", "CreateContainer", req)
 	defer r.Unlock()
+	defer vhook.Point("adapt.unlocking", "CreateContainer", req)
 	defer r.removeClosedPlugins()
 
 	result := collectCreateContainerResult(req)
@@ -284,7 +289,9 @@ func (r *Adaptation) PostStartContainer(ctx context.Context, evt *StateChangeEve
 // UpdateContainer relays the corresponding CRI request to plugins.
 func (r *Adaptation) UpdateContainer(ctx context.Context, req *UpdateContainerRequest) (*UpdateContainerResponse, error) {
 	r.Lock()
+	vhook.Point("adapt.locked", "UpdateContainer", req)
 	defer r.Unlock()
+	defer vhook.Point("adapt.unlocking", "UpdateContainer", req)
 	defer r.removeClosedPlugins()
 
 	result := collectUpdateContainerResult(req)
@@ -311,7 +318,9 @@ func (r *Adaptation) PostUpdateContainer(ctx context.Context, evt *StateChangeEv
 // StopContainer relays the corresponding CRI request to plugins.
 func (r *Adaptation) StopContainer(ctx context.Context, req *StopContainerRequest) (*StopContainerResponse, error) {
 	r.Lock()
+	vhook.Point("adapt.locked", "StopContainer", req)
 	defer r.Unlock()
+	defer vhook.Point("adapt.unlocking", "StopContainer", req)
 	defer r.removeClosedPlugins()
 
 	result := collectStopContainerResult()
@@ -342,7 +351,9 @@ func (r *Adaptation) StateChange(ctx context.Context, evt *StateChangeEvent) err
 	}
 
 	r.Lock()
+	vhook.Point("adapt.locked", "StateChange", evt)
 	defer r.Unlock()
+	defer vhook.Point("adapt.unlocking", "StateChange", evt)
 	defer r.removeClosedPlugins()
 
 	for _, plugin := range r.plugins {
@@ -358,7 +369,9 @@ func (r *Adaptation) StateChange(ctx context.Context, evt *StateChangeEvent) err
 // Perform a set of unsolicited container updates requested by a plugin.
 func (r *Adaptation) updateContainers(ctx context.Context, req []*ContainerUpdate) ([]*ContainerUpdate, error) {
 	r.Lock()
+	vhook.Point("adapt.locked", "UpdateContainers", req)
 	defer r.Unlock()
+	defer vhook.Point("adapt.unlocking", "UpdateContainers", req)
 
 	return r.updateFn(ctx, req)
 }
@@ -511,19 +524,26 @@ func (r *Adaptation) acceptPluginConnections(l net.Listener) error {
 				continue
 			}
 
+			vhook.Point("sync.request", p.name())
 			r.requestPluginSync()
+			vhook.Point("sync.exclusive", p.name())
 
 			err = r.syncFn(ctx, p.synchronize)
+			vhook.Point("sync.synced", p.name(), err)
 			if err != nil {
 				log.Infof(ctx, "failed to synchronize plugin: %v", err)
 			} else {
 				r.Lock()
+				vhook.Point("adapt.locked", "register", p.name())
 				r.plugins = append(r.plugins, p)
 				r.sortPlugins()
+				vhook.Point("sync.activated", p.name(), r.vhookPluginNames())
+				vhook.Point("adapt.unlocking", "register", p.name())
 				r.Unlock()
 				log.Infof(ctx, "plugin %q connected and synchronized", p.name())
 			}
 
+			vhook.Point("sync.finish", p.name())
 			r.finishedPluginSync()
 		}
 	}()
